@@ -212,7 +212,7 @@ PROPS = {
          'microstack::Stack::from_vec() does not check its length (used only with a one-element vector in empty())',
          'microstack::Stack::new() uses uninit().assume_init() on an array of MaybeUninit-free values (assumption)',
          'leaks (emap never drops its elements) are not memory errors in the property\'s sense'],
-        extra=dict(units=['U_ops', 'U_guard', 'U_slice'],
+        extra=dict(units=['U_ops', 'U_guard'],
                    level_note='Trusted: Verus/Z3; the total- and guard-mode container contracts (emap/micromap/microstack panic '
                               'before any out-of-range access when debug assertions are on: audited by bounded Kani harnesses, '
                               'not proved); debug-assertion builds (the property\'s own premise).')),
